@@ -120,7 +120,7 @@ func writerSweep(m types.TemplateManager, name string, data map[string]any, stat
 	return ""
 }
 
-var hostileStrings = []string{"x", "a<b", "<script>alert(1)</script>", "a&b", `"q"`, "it's", `a\b`, "l1\nl2", "\ttab", "${x}", "}", "-->", "</p>", "é中😀", "a=\"b\" c='d'", "&amp;", "\x01", " ", "", "<!--", "]]>", "> <"}
+var hostileStrings = []string{"x", "a<b", "<script>alert(1)</script>", "a&b", `"q"`, "it's", `a\b`, "l1\nl2", "\ttab", "${x}", "}", "-->", "</p>", "é中😀", "a=\"b\" c='d'", "&amp;", "\x01", " ", "", "<!--", "]]>", "> <", "pad \n", "\u3000wide\u00a0"}
 
 func genData(r *Rng) map[string]any {
 	d := map[string]any{}
@@ -507,6 +507,12 @@ func copyData(d map[string]any) map[string]any {
 func genTmplCase(r *Rng, out *outFiles) {
 	cfg := tmplCfg{ap: r.Pick([]string{":", ":", ":", "v-", "th:", "ui:", "wire:", "attr-"}), tp: r.Pick([]string{"t:", "t:", "x-", "tb:", "ck-"}),
 		global: map[string]any{"g1": "G", "s2": "global-s2", "num": int64(99)}}
+	if r.Chance(8) {
+		// global entries named like built-ins: the global scope is consulted BEFORE the built-ins
+		cfg.global["true"] = false
+		cfg.global["len"] = int64(7)
+		cfg.global["string"] = "S"
+	}
 	g := &tmplGen{r: r, ap: cfg.ap, tp: cfg.tp}
 	ts := g.genSet()
 	g.layout(ts)
